@@ -250,6 +250,9 @@ func (level *Level) UnmarshalJSON(text []byte) error {
 
 func (level Level) MarshalJSON() ([]byte, error) {
 	b, err := level.MarshalText()
+	if jb, ok := jsonFormOfName(b); ok && err == nil {
+		return jb, nil
+	}
 	return []byte(fmt.Sprintf("%q", string(b))), err
 }
 
